@@ -50,7 +50,7 @@ Definition SIG_DATAGRAM_NOT_OWN := 6%N.     (* a datagram is not decoded and rep
 Definition is_http_family (svc : N) : bool := ((5 <=? svc) && (svc <=? 10))%N.
 Definition SIG_TELNET_LINES := 7%N.          (* telnet: the lines/commands reported are not those of the byte stream *)
 Definition SIG_LDAP_MESSAGES := 8%N.
-Definition SIG_SMTP_STALE_CHUNK := 9%N.      (* smtp: exactly the code's reading - chunks of a transaction abandoned without RSET are reported with the next mail *)         (* ldap: not exactly one event per complete message *)
+Definition SIG_SMTP_STALE_CHUNK := 9%N.      (* smtp: the reading before a828b58 - chunks of a transaction abandoned without RSET are reported with the next mail *)         (* ldap: not exactly one event per complete message *)
 Definition is_memcached (svc : N) : bool := beq svc SVC_MEMCACHED || beq svc SVC_MEMCACHED_UDP.
 Definition has_store (es : list event) : bool := existsb (fun e => beq (ev_ty e) EV_MC_STORE) es.
 
@@ -61,7 +61,7 @@ Definition case_sig (c : case) : N :=
   else if is_memcached (c_svc c) && (has_store (fst exp) || has_store (fst got)) then SIG_MEMCACHED_STORAGE
   else if is_http_family (c_svc c) && (length (fst got) <? length (fst exp)) then SIG_HTTP_REQUEST_LOST
   else if is_http_family (c_svc c) && (length (fst got) =? length (fst exp)) then SIG_HTTP_SHORT_BODY
-  else if beq (c_svc c) SVC_SMTP && obs_eqb (run_model (c_svc c) (c_segs c)) got then SIG_SMTP_STALE_CHUNK
+  else if beq (c_svc c) SVC_SMTP && obs_eqb (seg_obs (smtp_prog false (fuel_for (c_stream c)) SHello 0 []) (c_segs c)) got then SIG_SMTP_STALE_CHUNK
   else if beq (c_svc c) SVC_TELNET then SIG_TELNET_LINES
   else if beq (c_svc c) SVC_LDAP then SIG_LDAP_MESSAGES
   else if beq (c_svc c) SVC_DNS && (match fst got with [] => true | _ => false end) then SIG_UDP_WRAPPED
